@@ -224,9 +224,10 @@ impl BuiltInFunctionList {
             match (string, split_by) {
                 (DataType::String(string), DataType::String(split_by)) => {
                     let mut splitted_string: Vec<&str> = string.split(&split_by).collect();
-                    // For some reason split with "" causes splits to have "" at benginning and end
-                    // Thats why removes character at start finish
-                    if splitted_string[0] == "" && splitted_string[splitted_string.len() - 1] == "" {
+                    // Split with "" matches before first and after last character, which causes
+                    // splits to have "" at beginning and end. Thats why removes them. With any
+                    // other separator empty fields at beginning and end are real fields
+                    if split_by == "" {
                         splitted_string.remove(0);
                         splitted_string.remove(splitted_string.len() - 1);
                     }
